@@ -113,7 +113,7 @@ func init() {
 				ctor = "unsafe"
 				sc.Stages = append(sc.Stages, StageSpec{Op: "Serialize"})
 			}
-			sc.Sources = []SrcSpec{{Mode: "async", Ctor: ctor, Producers: g.Range(2, 4), Script: genScript(g, 10, 3, "CE--", false)}}
+			sc.Sources = []SrcSpec{{Mode: "async", Ctor: ctor, CtorAPI: g.PickInt(0, 0, 1, 2), Producers: g.Range(2, 4), Script: genScript(g, 10, 3, "CE--", false)}}
 			if ctor != "unsafe" && g.Bool(0.2) {
 				sc.Sources[0].PanicAfterSpawn = true
 				sc.Sources[0].Producers = g.Range(1, 2)
